@@ -133,6 +133,58 @@ def printMembers (first : Bool) : List (Str × Json Float) → Str
   | (k, v) :: fs => (if first then [] else [',']) ++ (printString k ++ ':' :: (printJson v ++ printMembers false fs))
 end
 
+/-! ### the same printer with an accumulator (what the compiled driver runs)
+  `printJson x ++ rest` copies the text of `x` once per enclosing container; the accumulator version conses every
+  character once.  `printJson_eq_printJsonFast` (proved below, `@[csimp]`) makes the compiler use it for `printJson`;
+  theorems keep talking about `printJson`. -/
+mutual
+def printAcc : Json Float → Str → Str
+  | .null, acc => 'n' :: 'u' :: 'l' :: 'l' :: acc
+  | .bool b, acc => if b then 't' :: 'r' :: 'u' :: 'e' :: acc else 'f' :: 'a' :: 'l' :: 's' :: 'e' :: acc
+  | .num x, acc => printNum x ++ acc
+  | .int i, acc => printInt i ++ acc
+  | .str s, acc => '"' :: (escapeStr s ++ '"' :: acc)
+  | .arr xs, acc => '[' :: printSeqAcc true xs acc
+  | .obj fs, acc => '{' :: printMembersAcc true fs acc
+def printSeqAcc (first : Bool) : List (Json Float) → Str → Str
+  | [], acc => ']' :: acc
+  | x :: xs, acc => if first then printAcc x (printSeqAcc false xs acc) else ',' :: printAcc x (printSeqAcc false xs acc)
+def printMembersAcc (first : Bool) : List (Str × Json Float) → Str → Str
+  | [], acc => '}' :: acc
+  | (k, v) :: fs, acc =>
+    if first then '"' :: (escapeStr k ++ '"' :: ':' :: printAcc v (printMembersAcc false fs acc))
+    else ',' :: '"' :: (escapeStr k ++ '"' :: ':' :: printAcc v (printMembersAcc false fs acc))
+end
+
+def printJsonFast (j : Json Float) : Str := printAcc j []
+
+theorem printAcc_eq (j : Json Float) : ∀ acc, printAcc j acc = printJson j ++ acc := by
+  refine Json.rec (N := Float)
+    (motive_1 := fun j => ∀ acc, printAcc j acc = printJson j ++ acc)
+    (motive_2 := fun xs => ∀ b acc, printSeqAcc b xs acc = printSeq b xs ++ acc)
+    (motive_3 := fun fs => ∀ b acc, printMembersAcc b fs acc = printMembers b fs ++ acc)
+    (motive_4 := fun m => ∀ acc, printAcc m.2 acc = printJson m.2 ++ acc)
+    ?_ ?_ ?_ ?_ ?_ ?_ ?_ ?_ ?_ ?_ ?_ ?_ j
+  · intro acc; simp [printAcc, printJson]
+  · intro b acc; cases b <;> simp [printAcc, printJson]
+  · intro x acc; simp [printAcc, printJson]
+  · intro i acc; simp [printAcc, printJson]
+  · intro s acc; simp [printAcc, printJson, printString]
+  · intro xs ih acc; simp [printAcc, printJson, ih]
+  · intro fs ih acc; simp [printAcc, printJson, ih]
+  · intro b acc; simp [printSeqAcc, printSeq]
+  · intro x xs ih1 ih2 b acc; cases b <;> simp [printSeqAcc, printSeq, ih1, ih2]
+  · intro b acc; simp [printMembersAcc, printMembers]
+  · intro m fs ih1 ih2 b acc
+    obtain ⟨k, v⟩ := m
+    have ih1' : ∀ acc, printAcc v acc = printJson v ++ acc := ih1
+    cases b <;> simp [printMembersAcc, printMembers, printString, ih1', ih2]
+  · intro k v ih acc; exact ih acc
+
+@[csimp] theorem printJson_eq_printJsonFast : @printJson = @printJsonFast := by
+  funext j
+  rw [printJsonFast, printAcc_eq, List.append_nil]
+
 /-! ### `serde_json::from_str` -/
 
 def isWs (c : Char) : Bool := c = ' ' || c = '\t' || c = '\n' || c = '\r'
@@ -202,10 +254,13 @@ def parseStrBody : Nat → Str → Option (Str × Str)
       | none => none
       | some (s, t) => some (c :: s, t)
 
-/-- a string literal at the head of the text -/
-def parseString : Str → Option (Str × Str)
+/-- a string literal at the head of the text, read with the given fuel (more than the literal's length suffices) -/
+def parseStringF (fuel : Nat) : Str → Option (Str × Str)
   | [] => none
-  | c :: r => if c = '"' then parseStrBody (r.length + 1) r else none
+  | c :: r => if c = '"' then parseStrBody fuel r else none
+
+/-- a string literal at the head of the text -/
+def parseString (cs : Str) : Option (Str × Str) := parseStringF cs.length cs
 
 def isNumChar (c : Char) : Bool := isDig c || c = '-' || c = '+' || c = '.' || c = 'e' || c = 'E'
 
@@ -266,8 +321,9 @@ def parseNumber (cs : Str) : Option (Json Float × Str) :=
 def parseWord (w : Str) (j : Json Float) (cs : Str) : Option (Json Float × Str) :=
   if w.isPrefixOf cs then some (j, cs.drop w.length) else none
 
-/- `fuel` makes the recursion structural (2·length + 3 always suffices); `d` is serde_json's `remaining_depth`:
-   entering an array or object decrements it and fails when it reaches 0. -/
+/- `fuel` makes the recursion structural (2·length + 3 always suffices: a callee's fuel stays above twice the length of
+   its remaining text, so the string reader can share it — no per-token length computation); `d` is serde_json's
+   `remaining_depth`: entering an array or object decrements it and fails when it reaches 0. -/
 mutual
 def parseValue : Nat → Nat → Str → Option (Json Float × Str)
   | 0, _, _ => none
@@ -276,7 +332,7 @@ def parseValue : Nat → Nat → Str → Option (Json Float × Str)
     | [] => none
     | c :: r =>
       if c = '"' then
-        match parseStrBody (r.length + 1) r with
+        match parseStrBody f r with
         | some (s, t) => some (.str s, t)
         | none => none
       else if c = '[' then
@@ -332,7 +388,7 @@ def parseTail : Nat → Nat → Str → Option (List (Json Float) × Str)
 def parseMember : Nat → Nat → Str → Option ((Str × Json Float) × Str)
   | 0, _, _ => none
   | f + 1, d, cs =>
-    match parseString (skipWs cs) with
+    match parseStringF f (skipWs cs) with
     | none => none
     | some (k, t) =>
       match skipWs t with
